@@ -317,9 +317,14 @@ class Runner:
                     kw["layout"] = py_layout(o["layout"])
                 arr = mk_arr(o["shape"], o["vals"])
                 exp = expected_stored(coll, NAMES[o["name"]], arr, o["layout"], o["resize"])
+                # layout that must be in force afterwards: the explicit one, else the stored one, else [...]
+                exp_lay = tuple(kw["layout"]) if "layout" in kw else \
+                    tuple(coll._layouts[NAMES[o["name"]]]) if NAMES[o["name"]] in coll._layouts else (Ellipsis,)
                 coll.set(NAMES[o["name"]], arr, resize=o["resize"], check=o["check"], **kw)
                 r = None
-                if exp is not None and not same_array(coll._arrays.get(NAMES[o["name"]]), exp):
+                if tuple(coll._layouts.get(NAMES[o["name"]], ())) != exp_lay:
+                    why = "layout-differs-from-requested"
+                elif exp is not None and not same_array(coll._arrays.get(NAMES[o["name"]]), exp):
                     why = "stored-array-differs-from-inserted"
             elif k == "update":
                 arr = mk_arr(o["shape"], o["vals"])
@@ -565,7 +570,8 @@ def gen_named_history(rng, length):
         if r < 0.62 or not stored:
             name = rng.choice(stored) if stored and rng.random() < 0.5 else rng.randrange(3)
             keep = NAMES[name] in coll._arrays and rng.random() < 0.5
-            lay = ["..." if x is Ellipsis else x for x in coll._layouts[NAMES[name]]] if keep else list(rng.choice(NAMED_LAYOUTS))
+            cur_lay = ["..." if x is Ellipsis else x for x in coll._layouts[NAMES[name]]] if NAMES[name] in coll._layouts else None
+            lay = cur_lay if keep else list(rng.choice([l for l in NAMED_LAYOUTS + [["..."], ["...", None]] if l != cur_lay]))
             others = {}
             for n in coll._arrays:
                 if n != NAMES[name]:
@@ -657,6 +663,12 @@ def corpus():
     ] + [
         {"app": app, "ops": [s(1, [2, 1]), v(0, [1, 1, 3], ["...", "n"]), {"op": "pop", "t": "main", "name": 0},
                              v(2, [2, 1, 6], ["...", "n"], rs=True)]}
+        for app in (False, True)
+    ] + [
+        # an existing name set again with another explicit layout: the new layout is in force
+        {"app": app, "ops": [v(0, [2, 3], ["..."]), v(0, [2, 3], ["...", "n"]), v(1, [2, 3], ["...", "n"]),
+                             v(0, [3, 2], ["n", "..."]), v(0, [2, 3], ["...", None]),
+                             {"op": "resize", "t": "main", "ax": 0, "size": 5, "const": 0}]}
         for app in (False, True)
     ] + [
         # control: another array carries the axis -> centre pad / crop
@@ -785,6 +797,42 @@ def statematrix_cases(ctx, n):
             if len(parts) != 2 or not np.array_equal(parts[0].states, init) or not np.array_equal(parts[1].states, init_b) \
                     or not np.array_equal(parts[0].equilibrium, np.broadcast_to(eq_full, full)):
                 bad.append((dict(case, axis=axis), "unstack"))
+            # copies are independent also through the linked "system" collection: a shape change of one
+            # matrix must not reach the other's system collection
+            sm4 = mk()
+            cp4 = sm4.copy()
+            s_sys, c_sys = tuple(sm4.system.shape), tuple(cp4.system.shape)
+            cp4.expand(len(shape) + 2)
+            if cp4.system is sm4.system or tuple(sm4.system.shape) != s_sys or tuple(cp4.system.shape) != tuple(cp4.shape):
+                bad.append((case, "copy-linked-collection-shared"))
+            c_sys = tuple(cp4.system.shape)
+            sm4.expand(len(shape) + 1)
+            if tuple(cp4.system.shape) != c_sys or tuple(sm4.system.shape) != tuple(sm4.shape):
+                bad.append((case, "copy-linked-collection-shared"))
+            # stack / unstack of matrices carrying coords, any axis, compared slice by slice with the inputs
+            kd = rng.choice([1, 2, 3])
+            nsm = rng.choice([2, 2, 3])
+            ins = []
+            for j in range(nsm):
+                stj = init + 100 * j
+                cj = np.array(rand_vals(rng, shape + [2 * ns + 1, kd]), dtype=float).reshape(shape + [2 * ns + 1, kd])
+                ins.append((stj, cj))
+            sms = [StateMatrix(a, equilibrium=eq, coords=c, check=False) for a, c in ins]
+            axis_c = rng.randrange(1, len(shape) + 1) if rng.random() < 0.7 else 0
+            cc = dict(case, axis=axis_c, kdim=kd, count=nsm, coords=[c.tolist() for _, c in ins])
+            stc = sms[0].stack(sms[1:], axis=axis_c)
+            ok = list(stc.shape) == shape[:axis_c] + [nsm] + shape[axis_c:] and stc.coords is not None \
+                and tuple(np.asarray(stc.coords).shape) == tuple(shape[:axis_c] + [nsm] + shape[axis_c:] + [2 * ns + 1, kd])
+            for j, (a, c) in enumerate(ins):
+                ok = ok and np.array_equal(np.take(stc.states, j, axis=axis_c), a) \
+                    and np.array_equal(np.take(np.asarray(stc.coords), j, axis=axis_c), c) \
+                    and np.array_equal(np.take(stc.equilibrium, j, axis=axis_c), np.broadcast_to(eq_full, full))
+            if not ok:
+                bad.append((cc, "stack-coords"))
+            parts = list(stc.unstack(axis=axis_c))
+            if len(parts) != nsm or any(not np.array_equal(q.states, a) or q.coords is None
+                                        or not np.array_equal(np.asarray(q.coords), c) for q, (a, c) in zip(parts, ins)):
+                bad.append((cc, "unstack-coords"))
             # copy(coords=<another kdim>): 'kdim' is carried by coords only -> stored exactly as given;
             # copy(states=<another nstate>): 'nstate' is shared with equilibrium -> centre resized to it
             lead = [1] * len(shape)
